@@ -108,6 +108,13 @@ class Gen:
                     ol = r.randrange(1, max(2, len(src_lines) + 1))
                     oc = r.randrange(0, 6)
                     ni = r.randrange(0, nn) if nn > 0 and r.random() < self.cfg.names else None
+                    prev = segs[-1] if segs and segs[-1][0] == li + 1 and segs[-1][2] is not None else None
+                    if prev is not None and r.random() < 0.2:
+                        # the same original location as the previous segment of the line, named differently
+                        # (or not at all): only the name tells the two apart
+                        psi, pol, poc, pni = prev[2]
+                        others = [x for x in list(range(nn)) + [None] if x != pni]
+                        si, ol, oc, ni = psi, pol, poc, (r.choice(others) if others else pni)
                     segs.append((li + 1, c, (si, ol, oc, ni)))
         return {'mappings': encode_segments(segs, r), 'sources': sources,
                 'contents': contents if with_contents else [], 'names': names,
@@ -250,6 +257,10 @@ class Gen:
         beyond = [n + 1, n + 3, 4294967295 if r.random() < 0.5 else n + 2]
         k = weighted(r, [(0, 1), (1, 4), (2, 4), (3, 2), (4, 1)])
         out = []
+        if k > 0 and n > 0 and r.random() < 0.15:
+            # strip a prefix: the first replacement starts at 0 and deletes up to a boundary near the start
+            e = r.choice([b for b in bounds if b <= 4] or [0])
+            out.append((0, e, '', None, 1))
         for _ in range(k):
             pool = bounds + (beyond if r.random() < 0.15 else [])
             if out and r.random() < 0.3:
